@@ -43,3 +43,33 @@ fn c28_slices_std_axioms() {
     }
     kani::assert(Duration::ZERO.as_nanos() == 0 && Duration::ZERO == Duration::new(0, 0), "C28.axiom_zero");
 }
+
+/// Kani companion to the Verus proof of get_slices, on the REAL function (no extraction): every total and every
+/// slice > 0 over the full Duration domain, restricted to requests of at most three pieces (total < 3 x slice; the
+/// restriction is on the piece count, not on magnitudes, so totals and slices near u64::MAX nanoseconds and near
+/// Duration::MAX are included). No panic / overflow inside the function (Kani's own checks), at most three pieces,
+/// each <= slice, all but the last == slice, and the pieces add up to the total. Bounded: <= 3 pieces.
+#[kani::proof]
+#[kani::unwind(5)]
+fn c28_slices_few_pieces() {
+    let t_s: u64 = kani::any(); let t_n: u32 = kani::any(); kani::assume(t_n < 1_000_000_000);
+    let s_s: u64 = kani::any(); let s_n: u32 = kani::any(); kani::assume(s_n < 1_000_000_000);
+    let total = Duration::new(t_s, t_n);
+    let slice = Duration::new(s_s, s_n);
+    kani::assume(slice > Duration::ZERO);
+    if let Some(s3) = slice.checked_add(slice).and_then(|x| x.checked_add(slice)) { kani::assume(total < s3); }
+    let r = get_slices(total, slice);
+    kani::assert(r.len() <= 3, "C28.slices_at_most_ceil_total_over_slice_pieces");
+    let mut sum = Some(Duration::ZERO);
+    let mut i = 0;
+    while i < r.len() {
+        kani::assert(r[i] <= slice, "C28.every_piece_fits_the_slice");
+        if i + 1 < r.len() { kani::assert(r[i] == slice, "C28.all_but_the_last_piece_are_full_slices"); }
+        sum = sum.and_then(|x| x.checked_add(r[i]));
+        i += 1;
+    }
+    kani::assert(sum == Some(total), "C28.pieces_add_up_to_the_total");
+    if total == Duration::ZERO { kani::assert(r.is_empty(), "C28.zero_total_has_no_pieces"); }
+    kani::cover!(r.len() == 3 && t_s > u64::MAX / 2, "C28.cover_three_pieces_of_a_huge_total");
+    kani::cover!(r.len() == 1 && total == slice, "C28.cover_single_full_slice");
+}
